@@ -46,6 +46,9 @@ def programs(t):
         for se in (-3, -1, 0, 2):
             for de in (-2, 0, 1):
                 lines.append(line(T(s, se, 10), T(d, de, 10)))
+    # different radixes on the two sides (decimal <-> binary fixed point), positive and negative source exponents
+    for (s_, se, sr, d, de, dr) in [('i32', 2, 10, 'i32', -4, 2), ('i32', -2, 10, 'i32', -8, 2), ('i16', 1, 10, 'i32', 0, 2), ('i32', -4, 2, 'i32', -2, 10), ('i8', 3, 2, 'i16', -1, 10), ('i64', 3, 10, 'i64', -10, 2)]:
+        lines.append(line(T(s_, se, sr), T(d, de, dr)))
     # floating <-> scaled / integer
     for f in ['f32', 'f64', 'f80']:
         for rep in reps:
